@@ -15,7 +15,9 @@ CLAIMED = {
         "recording backend, offers connections to the real acceptLoop over an in-memory listener, and TLC validates every recorded line. "
         "Sessions (22 per address pattern) keep ONE connection open through the real connection loop while the allow-list / secure flag "
         "are replaced with UpdatePolicyOptions between its requests (listed -> excluded -> listed, open -> restricted, secure off -> on): "
-        "each request must be judged by the policy in force when it arrives (spec action Reconfigure; TLC's non-vacuity variant "
+        "each request must be judged by the policy in force when it arrives; about a fifth of the vectors (all with malformed entries, "
+        "among them lists made up of malformed entries only, which admit nobody) are also given at construction through New() "
+        "(spec action Reconfigure; TLC's non-vacuity variant "
         "'conn_only' is the frozen-at-connect defect).",
    note="an IPv4 client against an IPv6 CIDR shorter than /96 that covers the mapped range, and positive matches involving a zone suffix, are "
         "accepted either way; handler dispatch is observed through the server's debug log line; connection-level vectors use TCP remote "
@@ -34,7 +36,10 @@ CLAIMED = {
         "HandleCall installs and on which of 14 probe objects ACCESS grants READ; TLC validates every line, relating the probes to the "
         "squashed identity through the ACCESS rule. Sessions (30) send 3-5 requests with different credentials (AUTH_SYS identities, "
         "AUTH_NONE, a refused flavor, an undecodable body) on ONE connection through the real connection loop; every request must be "
-        "served under its own squashed credential (spec action NextRequest; non-vacuity variant 'ctx_hoisted').",
+        "served under its own squashed credential (spec action NextRequest; non-vacuity variant 'ctx_hoisted'); ten of them interleave "
+        "run-time updates that name no squash mode (read-only toggled or allow-list set through UpdatePolicyOptions / "
+        "UpdateExportOptions): accepted or refused, the mode given to New() keeps governing (spec action RuntimeUpdate; variant "
+        "'update_clears_squash').",
    note="ids are opaque tokens in TLA+ (equality only); for an unrecognised mode only uid/gid are constrained; trailing bytes after a "
         "well-formed body and machine names of 256+ bytes are accepted either way; probe object ownership is set in-package"),
  "C12": dict(cat=MC, engine="Policy", design="5/C12",
